@@ -551,12 +551,43 @@ fn packet_fp(p: &Packet) -> (u64, bool) {
 }
 
 fn gen_addrs(r: &mut Rng, n: usize) -> Vec<SocketAddr> {
+    use std::net::{IpAddr, Ipv4Addr, Ipv6Addr};
     (0..n)
         .map(|i| {
-            if r.chance(1, 2) {
-                nsim::addr4(r.below(255) as u8, i as u8, r.range(1, 65535) as u16)
-            } else {
-                nsim::addr6(r.below(65536) as u16, r.range(1, 65535) as u16)
+            let port = match r.below(16) {
+                0 => 0,
+                1 => 65535,
+                _ => r.range(1, 65535) as u16,
+            };
+            let v4 = |r: &mut Rng| match r.below(8) {
+                0 => Ipv4Addr::new(0, 0, 0, 0),
+                1 => Ipv4Addr::new(255, 255, 255, 255),
+                2 => Ipv4Addr::new(127, 0, 0, 1),
+                3 | 4 => Ipv4Addr::from(r.next_u64() as u32),
+                _ => Ipv4Addr::new(10, r.below(255) as u8, i as u8, r.below(255) as u8),
+            };
+            match r.below(12) {
+                0..=4 => nsim::addr4(r.below(255) as u8, i as u8, port.max(1)),
+                5 => SocketAddr::new(IpAddr::V4(v4(r)), port),
+                // the special forms of the IPv6 address space: what is stored is what has to come back, family included
+                6 => SocketAddr::new(IpAddr::V6(v4(r).to_ipv6_mapped()), port),
+                7 => {
+                    let o = v4(r).octets();
+                    SocketAddr::new(IpAddr::V6(Ipv6Addr::new(0, 0, 0, 0, 0, 0, u16::from_be_bytes([o[0], o[1]]), u16::from_be_bytes([o[2], o[3]]))), port)
+                }
+                8 => {
+                    let ip = match r.below(6) {
+                        0 => Ipv6Addr::LOCALHOST,
+                        1 => Ipv6Addr::UNSPECIFIED,
+                        2 => Ipv6Addr::new(0xfe80, 0, 0, 0, r.below(65536) as u16, 0, 0, 1),
+                        3 => Ipv6Addr::new(0xff02, 0, 0, 0, 0, 0, 0, 1),
+                        4 => Ipv6Addr::new(0x64, 0xff9b, 0, 0, 0, 0, r.below(65536) as u16, r.below(65536) as u16),
+                        _ => Ipv6Addr::from([0xffu8; 16]),
+                    };
+                    SocketAddr::new(IpAddr::V6(ip), port)
+                }
+                9 => SocketAddr::new(IpAddr::V6(Ipv6Addr::from(((r.next_u64() as u128) << 64) | r.next_u64() as u128)), port),
+                _ => nsim::addr6(r.below(65536) as u16, port.max(1)),
             }
         })
         .collect()
